@@ -521,3 +521,128 @@ func lateFinderReply(run *vh.Run) {
 		run.Count("late-finder-reply:" + variant)
 	}
 }
+
+// lateBlockReply: block replies handled by the syncer actor after the block fetcher's goroutine has returned
+// with an error (its SyncStop is still behind them in the mailbox). Syncer.Receive -> BlockFetcher.handleBlockRsp
+// is a plain send on responseCh (capacity 2*maxBlockReqTasks) that nobody reads any more. Scenario: one fetch task
+// at a time, two peers that answer later than the fetch timeout but within P2P's time limit for the request (30 s,
+// a constant: `TTL: DfltFetchTimeOut`): every request times out, is given to the other peer, ... until all peers are
+// bad and the fetcher stops with ErrAllPeerBad; then the late answers arrive.
+// Part 1 (oracle, always): with no more late answers than the buffer holds, Receive returns, the stop behind them
+// ends the session (Reset returns: it joins finder, hash fetcher and block fetcher) and a new session starts.
+// Part 2 (hazard, counted): with one more late answer than the buffer holds the actor blocks for ever. This needs a
+// fetch timeout shorter than P2P's limit; NewSyncer's configuration has both at 30 s, where a late answer needs a tick
+// inside the few microseconds between the task's start and its receiver's start. Not reported as a violation.
+func lateBlockReply(run *vh.Run) {
+	for _, variant := range []string{"fits-buffer", "one-more-than-buffer"} {
+		local := newChain(nil, -1, 5, 13101)
+		remote := newChain(local, 5, 9, 13102)
+		req := &recReq{}
+		req.future = func(msg interface{}) (interface{}, error) {
+			if _, ok := msg.(*message.GetPeers); ok {
+				return peersRsp(2), nil
+			}
+			return nil, errStub
+		}
+		cfg := syncer.VerifC17NewCfg(4, 1, 4, 1, 30*time.Millisecond, true)
+		oldTick, oldHash := syncer.VerifC17SetTimers(3*time.Millisecond, 20*time.Second)
+		sy := syncer.NewSyncer(nil, &memChain{local}, cfg)
+		sy.SetRequester(req)
+		notify := make(chan error, 4)
+		sy.Receive(actorCtx{m: &message.SyncStart{PeerID: peerID(0), TargetNo: 9, NotifyC: notify}})
+		seq := sy.Seq
+		var stop *message.SyncStop
+		var unanswered []*message.GetBlockChunks
+		ok := true
+		for i := 0; i < 1500 && stop == nil && ok; i++ {
+			time.Sleep(2 * time.Millisecond)
+			for _, m := range req.take() {
+				switch x := m.(type) {
+				case *message.GetHashByNo:
+					ok = ok && recvGuard(sy, &message.GetHashByNoRsp{Seq: seq, BlockHash: remote.hashAt(x.BlockNo)})
+				case *message.FinderResult:
+					ok = ok && recvGuard(sy, x)
+				case *message.GetHashes:
+					rsp := &message.GetHashesRsp{Seq: seq, PrevInfo: x.PrevInfo}
+					for k := uint64(1); k <= x.Count; k++ {
+						rsp.Hashes = append(rsp.Hashes, message.BlockHash(remote.hashAt(x.PrevInfo.No+k)))
+					}
+					rsp.Count = uint64(len(rsp.Hashes))
+					ok = ok && recvGuard(sy, rsp)
+				case *message.GetBlockChunks:
+					unanswered = append(unanswered, x) // the peer is slow
+				case *message.CloseFetcher:
+					ok = ok && recvGuard(sy, x)
+				case *message.SyncStop:
+					stop = x
+				}
+			}
+		}
+		syncer.VerifC17SetTimers(oldTick, oldHash)
+		if !ok {
+			run.Fail("the syncer actor did not return from Receive while a session was being set up", map[string]interface{}{"variant": variant})
+			return
+		}
+		if stop == nil || stop.Err != syncer.ErrAllPeerBad || len(unanswered) < 3 {
+			why := "no-stop"
+			if stop != nil {
+				why = fmt.Sprintf("stop=%v unanswered=%d", stop.Err, len(unanswered))
+			}
+			run.Count("late-block-reply:setup-failed:" + why)
+			continue
+		}
+		// the late answers, oldest first; the fetcher's SyncStop is behind them in the mailbox
+		n := 2 // capacity of responseCh with one task
+		if variant == "one-more-than-buffer" {
+			n = 3
+		}
+		blocked := false
+		for k := 0; k < n && k < len(unanswered); k++ {
+			g := unanswered[k]
+			var bs []*types.Block
+			for _, h := range g.Hashes {
+				bs = append(bs, remote.byHash[string(h)])
+			}
+			if !recvGuard(sy, &message.GetBlockChunksRsp{Seq: seq, ToWhom: g.ToWhom, Blocks: bs}) {
+				blocked = true
+				break
+			}
+		}
+		if variant == "one-more-than-buffer" {
+			if blocked {
+				run.Count("hazard:late-block-reply-blocks-syncer-actor(fetch timeout below P2P's limit)")
+			} else {
+				run.Count("late-block-reply:one-more-than-buffer:returned")
+			}
+			continue
+		}
+		if blocked {
+			run.Fail("the syncer actor is blocked in Receive by a late block reply although the reply buffer had room",
+				map[string]interface{}{"variant": variant, "late_replies": n})
+			return
+		}
+		if !recvGuard(sy, stop) {
+			run.Fail("the syncer actor did not return from Receive(SyncStop) after the block fetcher had stopped: Reset does not return",
+				map[string]interface{}{"variant": variant})
+			return
+		}
+		f, h, b := sy.VerifC17HasParts()
+		if sy.VerifC17IsRunning() || f || h || b {
+			run.Fail("session not torn down by the block fetcher's own stop", map[string]interface{}{"variant": variant})
+		}
+		select {
+		case e := <-notify:
+			if e != syncer.ErrAllPeerBad {
+				run.Fail("the session's result is not the error the block fetcher stopped with", map[string]interface{}{"variant": variant, "got": fmt.Sprint(e)})
+			}
+		default:
+			run.Fail("no result notification after the stop", map[string]interface{}{"variant": variant})
+		}
+		sy.Receive(actorCtx{m: &message.SyncStart{PeerID: peerID(0), TargetNo: 8, NotifyC: notify}})
+		if !sy.VerifC17IsRunning() || sy.Seq != seq+1 {
+			run.Fail("a synchronisation could not be started after late block replies and the stop", map[string]interface{}{"variant": variant})
+		}
+		recvGuard(sy, &message.SyncStop{Seq: sy.Seq, FromWho: "test"})
+		run.Count("late-block-reply:" + variant)
+	}
+}
